@@ -139,7 +139,9 @@ def r1_table(ctx):
                 r = ret_of(p)
                 html = decision_on(p, lambda t: is_self_field(t, "html"))
                 if html == 0:
-                    ctx.ob("R2", "key_only[xml]", describe_ret(r, 3)[0][:3] == ("Some", "Err", "ExpectedEq") and r[3][0][3][0][3][0][0] == "arg", "XML mode: a key without '=' is ExpectedEq(offset)", config=cfg)
+                    recorded = any(name_is(c[2], "check_for_duplicates") or (name_is(c[2], "Vec::push") and ends_with_fields(c[3][0], "keys")) for c in calls(p))
+                    ctx.ob("R2", "key_only[xml]", describe_ret(r, 3)[0][:3] == ("Some", "Err", "ExpectedEq") and r[3][0][3][0][3][0][0] == "arg" and not recorded,
+                           "XML mode: a key without '=' is ExpectedEq(offset) and is not an attribute: it is neither compared with nor recorded among the seen keys (recorded: %s)" % recorded, config=cfg)
                 else:
                     dup = decision_on(p, lambda t: t[0] == "discr" and call_is(t[1], "check_for_duplicates"))
                     checked = any(name_is(c[2], "check_for_duplicates") for c in calls(p))
